@@ -53,7 +53,13 @@ def make_history(case):
     base = {"model": case["model"], "ins": case["ins"],
             "kwargs": case["kwargs"], "monitors": monitors(case),
             "post": ["idem"]}
-    return {"steps": [dict(base), dict(base)]}
+    steps = [dict(base), dict(base)]
+    if case.get("kill_at_finalise"):
+        # the process dies after the loop's last checkpoint and before the
+        # checkpoint of the finalised run; the next process resumes with the
+        # stopping rule already met
+        steps = [dict(base, kill_event={"event": "finalise", "k": 1})] + steps
+    return {"steps": steps}
 
 
 def judge(case, reports, add, stats):
@@ -78,10 +84,17 @@ def judge(case, reports, add, stats):
             "ins_stop.iterations", 0)
         if r.get("status") == "exception":
             classes.append("errored:" + runcheck.exc_key(r))
+    if case.get("kill_at_finalise"):
+        classes.append("kill-at-finalise")
+        if reports and reports[0].get("status") != "killed":
+            classes.append("kill-at-finalise:not-reached")
+        reports = reports[1:]
     ok = all(r.get("status") == "completed" for r in reports) and \
         len(reports) == 2
     if ok:
         classes.append("completed")
+    if not reports:
+        return False, classes, evals
     first = reports[0]
     by_tol = "stopped-by-tolerance" in (first.get("classes") or [])
     resumed = "resumed-after-finish" in (reports[-1].get("classes") or [])
